@@ -118,9 +118,30 @@ def flow(ctx, proto, thorough, namplify, measure=True, stride=1):
             body = u16(tid) + u16(4 + 24) + list(range(1, 25))
             hdr = ([0, 10] + u16(16 + len(body)) + [0] * 12) if proto == "ipfix" else ([0, 9] + u16(1) + [0] * 16)
             j["msgs"].append({"exp": j["msgs"][-1]["exp"], "buf": hdr + body})
-    res = flowjobs.run_jobs(ctx, drv, codec.P[proto]["jobs"], jobs, env={"VERIF_ELEMENTS_DIR": eldir}, tag="fz_" + proto, timeout=3000)
-    ctx.traces_validated += sum(1 for r in res if not r.get("skipped"))
-    return list(zip(jobs, res))
+    return _portions(ctx, jobs, lambda chunk, k: flowjobs.run_jobs(ctx, drv, codec.P[proto]["jobs"], chunk, env={"VERIF_ELEMENTS_DIR": eldir},
+                                                                   tag="fz_%s_%d" % (proto, k), timeout=3000))
+
+
+PORTION = 30000
+
+
+def _portions(ctx, jobs, run, after=None):
+    """run the jobs a portion at a time and hand out (job, result) pairs as they come: the judge drops each pair after it has
+    looked at it (the thorough tiers run hundreds of thousands of histories; all their results at once were 60 GB)"""
+    import shutil
+    for k, lo in enumerate(range(0, len(jobs), PORTION)):
+        chunk = jobs[lo:lo + PORTION]
+        jobs[lo:lo + PORTION] = [None] * len(chunk)
+        res = run(chunk, k)
+        ctx.traces_validated += sum(1 for r in res if not r.get("skipped"))
+        if after:
+            after(chunk)
+        for pair in zip(chunk, res):
+            yield pair
+        del res, chunk
+        for name in os.listdir(ctx.tmp):
+            if name.startswith("fz_"):
+                shutil.rmtree(os.path.join(ctx.tmp, name), ignore_errors=True)
 
 
 SFLOW_FUZZ_CFG = """SPECIFICATION FSpec
@@ -162,12 +183,11 @@ def sflow(ctx, thorough, namplify, measure=True, stride=1):
         if rng.random() < 0.3:
             b = mutate(rng, b)
         jobs.append({"msgs": [{"buf": b, "filter": c["filter"]}], "want_json": True, "measure": measure, "src": "mut"})
-    res = flowjobs.run_jobs(ctx, drv, "TestVerifSFlowJobs", jobs, tag="fz_sflow", timeout=3000)
-    ctx.traces_validated += sum(1 for r in res if not r.get("skipped"))
-    for j in jobs:
-        for m in j["msgs"]:
-            m["exp"] = []
-    return list(zip(jobs, res))
+    def noexp(chunk):
+        for j in chunk:
+            for m in j["msgs"]:
+                m["exp"] = []
+    return _portions(ctx, jobs, lambda chunk, k: flowjobs.run_jobs(ctx, drv, "TestVerifSFlowJobs", chunk, tag="fz_sflow_%d" % k, timeout=3000), after=noexp)
 
 
 def v5(ctx, thorough, namplify, measure=True, stride=1):
@@ -187,9 +207,7 @@ def v5(ctx, thorough, namplify, measure=True, stride=1):
     for _ in range(namplify):
         c = cases[rng.randrange(len(cases))]
         jobs.append({"msgs": [{"exp": exps[rng.randrange(3)], "buf": mutate(rng, c["buf"])}], "want_json": True, "measure": measure, "src": "mut"})
-    res = flowjobs.run_jobs(ctx, drv, "TestVerifNF5Jobs", jobs, tag="fz_v5", timeout=3000)
-    ctx.traces_validated += sum(1 for r in res if not r.get("skipped"))
-    return list(zip(jobs, res))
+    return _portions(ctx, jobs, lambda chunk, k: flowjobs.run_jobs(ctx, drv, "TestVerifNF5Jobs", chunk, tag="fz_v5_%d" % k, timeout=3000))
 
 
 def all_protocols(ctx, thorough, n, measure, stride):
